@@ -36,6 +36,16 @@ fn wbyte(k: i64) -> u8 {
     ((192 + k).rem_euclid(256)) as u8
 }
 
+/// The slice handed to put_bytes / put_string* / write: the pattern, or (for lengths that only make sense as a test of
+/// the length conversion) lazily mapped zero pages, so that a 4 GiB slice costs no memory.
+fn slice_data(n: i64) -> Vec<u8> {
+    if n > (1 << 24) {
+        vec![0u8; n as usize]
+    } else {
+        (0..n).map(wbyte).collect()
+    }
+}
+
 struct Fixture {
     mem: Vec<u64>, // 8-aligned backing store
     cap: i64,
@@ -216,13 +226,13 @@ fn run_call(t: &mut Toks, buf: AtomicBuffer, base: isize, src: &AtomicBuffer) ->
         }
         "putb" => {
             let (off, n) = (t.i32(), t.int());
-            let data: Vec<u8> = (0..n).map(wbyte).collect();
+            let data = slice_data(n);
             buf.put_bytes(off, &data);
             (vec![], vec![])
         }
         "write" => {
             let n = t.int();
-            let data: Vec<u8> = (0..n).map(wbyte).collect();
+            let data = slice_data(n);
             let mut b = buf;
             let written = b.write(&data).expect("write");
             assert_eq!(written as i64, n);
@@ -260,13 +270,13 @@ fn run_call(t: &mut Toks, buf: AtomicBuffer, base: isize, src: &AtomicBuffer) ->
         }
         "ps" => {
             let (off, n) = (t.i32(), t.int());
-            let data: Vec<u8> = (0..n).map(wbyte).collect();
+            let data = slice_data(n);
             buf.put_string(off, &data);
             (vec![], vec![])
         }
         "pswl" => {
             let (off, n) = (t.i32(), t.int());
-            let data: Vec<u8> = (0..n).map(wbyte).collect();
+            let data = slice_data(n);
             let r = buf.put_string_without_length(off, &data);
             (vec![r as i64], vec![])
         }
